@@ -112,6 +112,14 @@ M = [
     ('usage', 'ResourceUsageReport.__repr__', 'pjplan/schedule.py', "        min_date = min(dates)\n        max_date = max(dates)", "        min_date = max(dates)\n        max_date = min(dates)", ''),
     ('usage', 'TextTable.new_row', 'pjplan/utils.py', "        self.__current_row = _TextTableRow(color, bg_color)\n        self.__rows.append(self.__current_row)", "        self.__current_row = _TextTableRow(color, bg_color)", 'new-empty-row'),
     ('usage', '_TextTableRow.add_cell', 'pjplan/utils.py', "        self.cells.append(_TextTableCell(text, color, bg_color))", "        self.cells = [_TextTableCell(text, color, bg_color)]", ''),
+    ('sheetrows', '__print_task_subtree', 'pjplan/task.py', "            else:\n                values.append(_Repr.__get_field_value(task, f))", "            elif f != 'id':\n                values.append(_Repr.__get_field_value(task, f))", 'cell'),
+    ('sheetrows', '__print_task_subtree', 'pjplan/task.py', "        if children:\n            for ch in task.children:", "        if not children:\n            for ch in task.children:", 'one-line-for-the-task'),
+    ('sheetrows', '__print_task_subtree', 'pjplan/task.py', "                _Repr.__print_task_subtree(ch, fields, level + 1, table, children, theme)", "                _Repr.__print_task_subtree(ch, fields, level + 1, table, False, theme)", 'one-line'),
+    ('sheetrows', '__print_task_subtree', 'pjplan/task.py', "                _Repr.__print_task_subtree(ch, fields, level + 1, table, children, theme)", "                _Repr.__print_task_subtree(task, fields, level + 1, table, children, theme)", 'dec'),
+    ('sheetrows', '__print_task_subtree', 'pjplan/task.py', "        table.new_row(color)\n        for v in values:\n            table.new_cell(v)", "        for v in values:\n            table.new_cell(v)", ''),
+    ('sheetrows', '_Repr.repr', 'pjplan/task.py', "        for s in fields:\n            table.new_cell(s.upper())", "        for s in fields:\n            pass", 'cell'),
+    ('sheetrows', '_Repr.repr', 'pjplan/task.py', "            _Repr.__print_task_subtree(_task, fields, 0, table, children, theme)", "            _Repr.__print_task_subtree(_task, fields, 0, table, True, theme)", 'one-header-line'),
+    ('sheetrows', '_Repr.repr', 'pjplan/task.py', "        table = TextTable()\n        table.new_row(header_color)", "        table = TextTable()", ''),
     ('loops', '_check_loops_from_task', 'pjplan/schedule.py', "    visited_tasks.add(task.id)\n\n    for s in task.predecessors:", "    for s in task.predecessors:", 'KeyError'),
     ('loops', '_check_loops_from_task', 'pjplan/schedule.py', "    visited_tasks.remove(task.id)\n    validated.add(task.id)", "    validated.add(task.id)", 'visited-set-is-restored'),
     ('loops', '_check_loops_from_task', 'pjplan/schedule.py', "    visited_tasks.remove(task.id)\n    validated.add(task.id)", "    visited_tasks.remove(task.id)\n    validated.remove(task.id)", 'KeyError'),
